@@ -30,6 +30,7 @@ fn rerun(w: &Value) -> Option<Outcome> {
         "c02_lr1" => Some(c02::run(w["input"]["grammar"].as_str()?)),
         "c04_graph" => Some(c04::run(w["input"]["grammar"].as_str()?)),
         "c12_header" => Some(c12::run_header(w["input"]["text"].as_str()?)),
+        "c12_yacc" => Some(c12::run_yacc(w["input"]["text"].as_str()?)),
         "c12_lex" => Some(c12::run_lex(w["input"]["text"].as_str()?)),
         "c20_u8" => Some(c20::run_u8(w["input"]["kind"].as_str()?, w["input"]["n"].as_u64()? as usize)),
         "c03_expect" => Some(c03::run(w["input"]["body"].as_str()?, w["input"]["expect"].as_u64().map(|x| x as usize), w["input"]["expectrr"].as_u64().map(|x| x as usize))),
@@ -53,6 +54,8 @@ fn search(unit: &str, tag: &str, tier: &str) -> Option<Value> {
         "c04_pager" => c04::search(tag, tier).or_else(|| c02::search(tag, tier)),
         "c12_header" => c12::search(tag, tier),
         "c12_lex" => c12::search_lex(tier),
+        "c12_yacc" => c12::search_yacc(tier),
+        "c10_decls" => if tag.starts_with("C12") { c12::search_yacc(tier) } else { c10::search(tag, tier) },
         "c11_decl" if tag.starts_with("C12") => c12::search_lex(tier),
         "c08_reduce" => c08::search(tag, tier),
         "c11_decl" | "c11_lex" | "c09_lexer" => c11::search(tag, tier),
